@@ -237,3 +237,12 @@ package putsvc
 //@   property C24
 //@   valid !authorityDenied(0)
 //@   ensures [node_key_signs_for_a_session_only_with_its_authority] err == nil ==> !authorityDenied(0)
+
+// ---- C25 (initial policy with MaxReplicas and local preference): the order in which the
+// rules are tried holds every rule the policy enables - an EC rule is enabled when there are no
+// per-rule limits at all or its limit is positive. A rule missing from the order is never
+// applied, and nothing later notices.
+//@ func (*distributedTarget).saveObject
+//@   property C25
+//@   loop 3 iteration [enabled_rep_rule_joins_the_order] repRules[rangeindex] > 0 ==> len(ruleOrder) == old(len(ruleOrder)) + 1 && ruleOrder[len(ruleOrder) - 1] == rangeindex
+//@   loop 4 iteration [enabled_ec_rule_joins_the_order] ecLimits == nil || ecLimits[rangeindex] > 0 ==> len(ruleOrder) == old(len(ruleOrder)) + 1 && ruleOrder[len(ruleOrder) - 1] == len(repRules) + rangeindex
